@@ -55,9 +55,17 @@ def passes (tm : TM) : Nat → TM
   | 0 => tm
   | n + 1 => passes tm.pass n
 
-def unloadReply (c : ClassInfo) (viaOuter : Bool) (delay circuits relays exits openExit : Nat) : String :=
-  let w0 : World := { fwdAdd := Gen.tunnelEndpointForwardsAdd, fwdRemove := Gen.tunnelEndpointForwardsRemove }
-  let w1 := (w0.run [.add false 3, .addPrefix false 4 8]).run (loadOps c viaOuter 1 2 7)
+def notSetRef : ROp → Bool
+  | .setRef _ => false
+  | _ => true
+
+/-- stack 0 = plain endpoint, 1 = TunnelEndpoint wrapper, 2 = StatisticsEndpoint wrapper -/
+def unloadReply (c : ClassInfo) (stack : Nat) (delay circuits relays exits openExit : Nat) : String :=
+  let viaOuter := stack != 0
+  let w0 : World := if stack == 2 then { fwdAdd := true, fwdRemove := Gen.statisticsEndpointForwardsRemove }
+                    else { fwdAdd := Gen.tunnelEndpointForwardsAdd, fwdRemove := Gen.tunnelEndpointForwardsRemove }
+  let ops := if stack == 2 then (loadOps c viaOuter 1 2 7).filter notSetRef else loadOps c viaOuter 1 2 7
+  let w1 := (w0.run [.add false 3, .addPrefix false 4 8]).run ops
   let s0 : UState := { w := w1, self := 1, proxy := 2, viaOuter := viaOuter,
                        circuits := circuits, relays := relays, exits := exits, openExit := openExit }
   let s := s0.run (fun k now => Gen.removalSleeps k now delay) (fun _ => 0) c.script
@@ -138,7 +146,7 @@ def step (st : DState) (toks : List String) : DState × String :=
       | _ => (st, "bad-op")
   | ["u", cls, o, delay, c, r, e, oe] =>
       match Gen.classes.find? (fun ci => ci.name == cls), delay.toNat?, c.toNat?, r.toNat?, e.toNat?, oe.toNat? with
-      | some ci, some d, some c, some r, some e, some oe => (st, unloadReply ci (o == "1") d c r e oe)
+      | some ci, some d, some c, some r, some e, some oe => (st, unloadReply ci (o.toNat?.getD 0) d c r e oe)
       | _, _, _, _, _, _ => (st, "bad-op")
   | _ => (st, "bad-op")
 
